@@ -109,7 +109,10 @@ def gen_universe(rng, uid, profile):
             s["deps"]["req"].append(rand_req())
         for _ in range(rng.choice(profile.get("n_con", [0, 0, 0, 1]))):
             s["deps"]["con"].append(rng.randrange(nvs))
-    problem = {"req": [rand_req() for _ in range(rng.choice(profile.get("n_root_req", [1, 1, 2, 3])))],
+    def root_req():
+        return {"s": rng.randrange(nvs)} if profile.get("root_single") else rand_req()
+
+    problem = {"req": [root_req() for _ in range(rng.choice(profile.get("n_root_req", [1, 1, 2, 3])))],
                "con": [rng.randrange(nvs) for _ in range(rng.choice(profile.get("n_root_con", [0, 0, 1])))],
                "soft": []}
     if profile.get("soft"):
@@ -117,6 +120,8 @@ def gen_universe(rng, uid, profile):
         problem["soft"] = [rng.randrange(len(solvables)) for _ in range(k)]
     u = {"id": uid, "packages": pkgs, "solvables": solvables, "version_sets": vsets, "unions": unions,
          "problem": problem}
+    if profile.get("snapshot"):
+        u["snapshot"] = True
     if profile.get("reuse"):
         probs = [problem]
         for _ in range(rng.randint(1, 3)):
@@ -148,6 +153,9 @@ FAMILIES = {
     # constrains that reject several candidates at once, fetched lazily; some hints
     "lazycon": dict(max_pkg=5, min_pkg=3, max_cand=4, p_vs_empty=0.02, max_vs=5, p_hint_all=0.2, p_hint_some=0.2,
                     n_req=[1, 1, 2], n_con=[1, 1, 2, 2], n_root_req=[1, 2], n_root_con=[0, 1, 1], p_locked=0.1, p_excluded=0.1),
+    # C16: what the snapshot format represents (no favored / locked); root requirements are single version sets because
+    # from_provider() takes names, version sets and solvables as capture roots - unions are captured from dependencies
+    "snapshot": dict(BASE, p_favored=0, p_locked=0, root_single=True, snapshot=True, p_union=0.3, max_unions=3),
     "soft": dict(BASE, soft=True),
     "reuse": dict(BASE, reuse=True),
 }
@@ -689,6 +697,44 @@ def check_graph(u, sp, hard, g, stats):
     if sat:
         bad("the facts shown in the conflict graph admit a selection that installs the root (the report is not a proof)")
     # bounded output (C04): rendering sizes are linear-ish in the graph
+    return viol
+
+
+def check_snapshot(u, problem, live, snap, stats):
+    """C16: solving through DependencySnapshot::from_provider(U) (directly and after a JSON round trip) vs. Spec(U)."""
+    viol = []
+    if snap is None:
+        return viol
+    if "panic" in snap:
+        return [{"prop": "C16", "what": "capturing or solving through the snapshot panicked: %s" % snap["panic"][:200]}]
+    if "error" in snap:
+        return [{"prop": "C16", "what": "snapshot: %s" % snap["error"]}]
+    sp = Spec(u)
+    hard = dict(problem, soft=[])
+    full = [f for _, f in sp.full(hard)]
+    spec_sat, _ = _check(stats, "spec-sat", full)
+    for variant in ("direct", "roundtrip"):
+        r = snap[variant]
+        label = "snapshot" if variant == "direct" else "snapshot after a serde_json round trip"
+        if r["result"] == "panic":
+            viol.append({"prop": "C16", "what": "solve through the %s panicked: %s" % (label, r.get("message", "")[:160])})
+            continue
+        if (r["result"] == "ok") != spec_sat:
+            viol.append({"prop": "C16", "what": "solve through the %s returned %s but z3 says the live provider's problem is %s" % (
+                label, r["result"], "satisfiable" if spec_sat else "unsatisfiable")})
+            continue
+        if r["result"] == "ok":
+            sol = set(r["solution"])
+            ok, _ = _check(stats, "model", full, [sp.X[i] if i in sol else z3.Not(sp.X[i]) for i in sp.X])
+            if not ok:
+                viol.append({"prop": "C16", "what": "solution %s obtained through the %s is not valid against the live provider's data" % (sorted(sol), label)})
+            if live["result"] == "ok" and set(live["solution"]) != sol:
+                viol.append({"prop": "C16", "what": "the %s does not preserve the provider's preferences: live solve returned %s, snapshot solve %s" % (
+                    label, sorted(live["solution"]), sorted(sol))})
+    if snap["fresh_id"] in snap["captured_version_sets"]:
+        viol.append({"prop": "C16", "what": "add_package_requirement returned id %d, which is a captured version set" % snap["fresh_id"]})
+    if not snap["captured_resolve_after_add"]:
+        viol.append({"prop": "C16", "what": "a captured version set no longer resolves to its entry after add_package_requirement"})
     return viol
 
 
